@@ -187,3 +187,54 @@ def replay_dist(m, R, H, N, eos_set, include_eos, batch_first, norm, variant):
 
 def vcs(ctx):
     return [dist_vc(*c) for c in configs(ctx.quick)]
+
+
+# ---- P rung: _lens_from_eos for a SYMBOLIC sequence length ----------------------------------------------------------------------
+def lens_vcs():
+    """C01.lens.first_eos: contract on the real `_lens_from_eos` for one generic column of symbolic length T >= 0.
+    torch.cumsum / sum over the symbolic extent are given their recurrence contracts (vf/pyvc/symvec.py); the
+    postcondition is derived by a ghost induction over t (base, step, use) whose three obligations are discharged
+    quantifier-free; the induction principle itself is part of the trusted base."""
+    from vf.pyvc import symvec
+
+    T, Tk, J = z3.Ints("T t_ind j_sk")
+    tok = z3.Function("tok", z3.IntSort(), z3.IntSort())
+
+    def thunk(I):
+        import pydrobert.torch._string as S
+
+        v = symvec.SymVec(T, lambda t: tok(t), "long")
+        I.stubs["torch.cumsum"] = symvec._cumsum
+        return I.call(S._lens_from_eos, [v, EOS, 0], {})
+
+    def post(p):
+        if not api.returns(p) or not ip.is_z3(p.value):
+            return False
+        defs = p.ghost.get("defs", {})
+        if "cumsum" not in defs or "partial_sum" not in defs:
+            return False
+        c, S = defs["cumsum"], defs["partial_sum"]
+        iseos = lambda t: tok(t) == EOS
+        b = lambda cond: z3.If(cond, 1, 0)
+
+        def inv(t, j):  # I(t), with the universally quantified "no eos before S(t)" instantiated at j
+            return z3.And(0 <= S(t), S(t) <= t, z3.Implies(z3.And(0 <= j, j < S(t)), z3.Not(iseos(j))),
+                          z3.Implies(S(t) < t, z3.And(iseos(S(t)), c(t - 1) >= 1)),
+                          z3.Implies(z3.And(S(t) == t, t >= 1), c(t - 1) == 0))
+
+        # instances of the primitives' recurrence contracts at the induction variable (FORALL-elimination)
+        inst = z3.And(c(0) == b(iseos(0)), z3.Implies(Tk >= 1, c(Tk) == c(Tk - 1) + b(iseos(Tk))), S(0) == 0, S(Tk + 1) == S(Tk) + b(c(Tk) == 0))
+        r = p.value
+        return [("induction.base", inv(z3.IntVal(0), J)),
+                ("induction.step", z3.Implies(z3.And(0 <= Tk, Tk < T, inst, inv(Tk, J)), inv(Tk + 1, J))),
+                ("induction.use", z3.Implies(z3.And(r == S(T), inv(T, J)),
+                                             z3.And(0 <= r, r <= T, z3.Implies(z3.And(0 <= J, J < r), z3.Not(iseos(J))), z3.Implies(r < T, iseos(r))))),
+                ("result_is_partial_sum_at_T", r == S(T))]
+
+    return [VC("C01.lens.first_eos", "_lens_from_eos[symbolic length]", M, "_lens_from_eos", thunk, pre=[T >= 0], posts=[("first_eos_or_full_length", post)],
+               twins=[("last_eos", lambda p: z3.Implies(z3.And(0 <= J, J < T, tok(J) == EOS), J <= p.value) if api.returns(p) and ip.is_z3(p.value) else None)],
+               inputs={"T": T, "eos": EOS},
+               assumptions=["assumed torch contracts: eq element-wise; cumsum by its recurrence; sum by its partial-sum recurrence (vf/pyvc/symvec.py)",
+                            "induction principle over the naturals (base + step => for all t <= T) applied outside the solver",
+                            "TorchScript executes _lens_from_eos with the semantics of its Python source",
+                            "one generic column along the reduced dimension (the function is column-wise)"])]
